@@ -8,6 +8,9 @@ from ..core import same, HarnessError
 ID = 'C06'
 TITLE = 'inc / exc partition a table'
 LEVEL = 'exploration'
+TECHNIQUE = 'runtime monitoring: row-filter reference model with unique row ids; partition / idempotence / find_ laws'
+LEVEL_TEXT = 'Held on the tables x conditions explored (keyword value/list/None/NaN/regex, dict filters, single callables incl. truthy non-bool results). A check says held on K observed executions, never verified.'
+LEVEL_NOTE = 'Trusted: Python `in` semantics for value matching; inf cells and NaN inside value lists are not generated.'
 RULE = ('random tables (0-20 rows, cells None/int/float/NaN/str, unique id column) x conditions (1-3 keyword filters of value / list / None / NaN / '
         'compiled regex, dict filter, or one callable over named columns incl. predicates returning truthy non-bool values); '
         'non-trivial = the condition selects a non-empty proper subset, or mixes None and NaN conditions; distinct = canonical hash of the case')
